@@ -70,6 +70,8 @@ def walk(t):
     stack = [t]
     while stack:
         x = stack.pop()
+        if x == ():
+            continue
         yield x
         if isinstance(x, tuple):
             for c in x:
@@ -124,8 +126,12 @@ def fmt(t, depth=0):
         return "(" + (" %s " % t[1]).join(f(x) for x in t[2]) + ")"
     if k == "phi":
         return "phi(%s ? %s : %s)" % (f(t[1]), f(t[2]), f(t[3]))
-    if k in ("ext", "call"):
-        return "%s(%s)" % (t[1].split(".")[-1] if k == "call" else t[1], ", ".join([f(x) for x in t[2]] + ["%s=%s" % (a, f(b)) for a, b in t[3]]))
+    if k == "call":
+        return "%s(%s)" % (t[1].split(".")[-1], ", ".join("%s=%s" % (a, f(b)) for a, b in t[3]))
+    if k == "ext":
+        return "%s(%s)" % (t[1], ", ".join([f(x) for x in t[2]] + ["%s=%s" % (a, f(b)) for a, b in t[3]]))
+    if k == "join":
+        return "join(" + " | ".join(f(x) for x in t[1]) + ")"
     if k == "method":
         return "%s.%s(%s)" % (f(t[1]), t[2], ", ".join([f(x) for x in t[3]] + ["%s=%s" % (a, f(b)) for a, b in t[4]]))
     if k == "apply":
